@@ -1555,3 +1555,101 @@ func genMulti(r *rand.Rand, id string) *Case {
 }
 
 func init() { generators["multi"] = genMulti }
+
+// genHeap (C18): message sizes around the 4 KiB allocation granule and the limit, skips of
+// oversized messages, accessor calls; the real reader's (arena, offset, len, cap) after every
+// operation is compared with the heap model.
+func genHeap(r *rand.Rand, id string) *Case {
+	c := baseCase(id, "heap")
+	c.Extra["direct"] = "heap"
+	c.L = []int{64, 4096, 5000, 8192, 100000}[r.Intn(5)]
+	sizes := []int{0, 1, 2, 10, 100, 1000, 3000, 4095, 4096, 4097, 5000, 8191, 8192}
+	n := 1 + r.Intn(14)
+	var ops []string
+	for i := 0; i < n; i++ {
+		switch r.Intn(6) {
+		case 0:
+			ops = append(ops, "s"+strconv.Itoa(c.L+1+r.Intn(3*c.L)))
+		case 1, 2:
+			ops = append(ops, "b"+strconv.Itoa(r.Intn(12)))
+		default:
+			sz := sizes[r.Intn(len(sizes))]
+			if sz > c.L {
+				sz = c.L - r.Intn(3)
+			}
+			ops = append(ops, "r"+strconv.Itoa(sz))
+		}
+	}
+	c.Extra["ops"] = strings.Join(ops, ",")
+	return c
+}
+
+// genRetain (C18): callbacks keep the query texts, parameter values, passwords and COPY
+// payloads they receive (zero-copy views) while later traffic of every size passes: messages
+// around the granule and the limit, oversized messages (skipped in chunks), failed batches.
+func genRetain(r *rand.Rand, id string) *Case {
+	c := baseCase(id, "retain")
+	c.L = []int{128, 256, 4096, 8192}[r.Intn(4)]
+	L := c.L
+	c.Auth = r.Intn(3) == 0
+	in := plainStartup("user" + strconv.Itoa(r.Intn(9)))
+	if c.Auth {
+		in = append(in, msgPassword("ok-secret-"+strconv.Itoa(r.Intn(1000)))...)
+	}
+	n := 3 + r.Intn(10)
+	pad := func(q string, size int) string {
+		if size > len(q)+2 {
+			q += "/"
+			for len(q)+1 < size {
+				q += "p"
+			}
+		}
+		return q
+	}
+	for i := 0; i < n; i++ {
+		size := []int{0, 0, L / 2, L - 1, L, 4000, 4096}[r.Intn(7)]
+		if size > L {
+			size = L
+		}
+		switch r.Intn(9) {
+		case 0, 1:
+			in = append(in, msgQuery(pad(probeQuery("R"+strconv.Itoa(i), 0), size))...)
+		case 2:
+			in = append(in, msgParse(pick(r, namePool), pad("t/25/r:t"+hxs("x")+";c:"+hxs("OK")+"/ok", size), nil)...)
+		case 3:
+			in = append(in, msgParse("", "!B"+hxs("refused "+strconv.Itoa(i)), nil)...)
+		case 4:
+			name := pick(r, namePool)
+			ps := []bindParam{{v: randBytes(r, 1+r.Intn(20), false)}, {v: []byte("param-" + strconv.Itoa(i))}}
+			in = append(in, msgBind(name, name, nil, ps[:1+r.Intn(2)], nil)...)
+			in = append(in, msgExecute(name, 0)...)
+		case 5:
+			in = append(in, msgSync()...)
+		case 6, 7:
+			// oversized message, skipped in chunks of L; sizes that are not multiples of L
+			sz := L + 1 + r.Intn(2*L+5)
+			body := make([]byte, sz)
+			for j := range body {
+				body[j] = 'Y'
+			}
+			in = append(in, typed([]byte("QPBd")[r.Intn(4)], body)...)
+		case 8:
+			q := "t//g:0;K3;c:" + hxs("COPY") + "/ok"
+			if len(q)+1 <= L {
+				in = append(in, msgQuery(q)...)
+				in = append(in, msgCopyData(randBytes(r, 1+r.Intn(30), false))...)
+				in = append(in, msgCopyData([]byte("second chunk"))...)
+				in = append(in, msgCopyDone()...)
+			}
+		}
+	}
+	in = append(in, msgSync()...)
+	c.In = in
+	c.Cuts = randCuts(r, len(in))
+	return c
+}
+
+func init() {
+	generators["heap"] = genHeap
+	generators["retain"] = genRetain
+}
